@@ -21,6 +21,8 @@ where
     let mut contour_id = 0u32;
 
     for polygon in subject {
+        #[cfg(feature = "verif-hooks")]
+        crate::verif_hooks::on_fill_polygon();
         contour_id += 1;
         process_polygon(polygon.exterior(), true, contour_id, &mut event_queue, sbbox, true);
         for interior in polygon.interiors() {
@@ -29,6 +31,8 @@ where
     }
 
     for polygon in clipping {
+        #[cfg(feature = "verif-hooks")]
+        crate::verif_hooks::on_fill_polygon();
         let exterior = operation != Operation::Difference;
         if exterior {
             contour_id += 1;
